@@ -10,7 +10,7 @@ use std::ffi::OsString;
 
 pub static DEF: PropDef = PropDef {
     id: "C06",
-    rule: "random: argument count log-uniform in [1, 400000] x length profile {all 1 byte, 1-20 bytes, page-sized, mostly small with a few within 0-2 bytes of the per-argument limit (131071 bytes + NUL), mixed} (total input capped at ~12 MB) x environment size {minimal, 1/4, 3/4 of the kernel budget, spread over few large or many small variables} x RLIMIT_STACK {256 KiB, 1 MiB, 8 MiB, 64 MiB, unlimited} (kernel budget 128 KiB .. 6 MiB; set with setrlimit in the child before exec) x length of the path the command is named by {short, 900, 2300, 3900 bytes} x fixed arguments after the command {none, 3000, 9000, 20000, 60000 bytes: part of every command line} x options {none, -n N, -s S (also S above the system limit), -L N}; NUL-separated input. A third sub-run runs xargs -I{} with templates holding 1-8 occurrences of {} per argument on lines sized so that the SUBSTITUTED arguments approach or exceed the per-argument limit or the whole budget. A second sub-run places one argument of 131072..400000 bytes (over the per-argument limit) at a random position. Oracle: the kernel itself - the built xargs binary runs the rec recorder; violation iff xargs exits 126 / reports 'Argument list too long' / any other status than 0, or the concatenation of the recorded arguments differs from the input (nothing lost, duplicated or reordered); for an oversized argument: exit status 1, a diagnostic, and no recorded invocation contains it or anything after it. Non-trivial = total argv bytes + 8 bytes of pointer per argument exceed the kernel budget of the chosen stack limit (>= 2 invocations are required), or an argument within 2 bytes of the per-argument limit is present. Distinct = distinct case JSON.",
+    rule: "random: argument count log-uniform in [1, 400000] x length profile {all 1 byte, 1-20 bytes, page-sized, mostly small with a few within 0-2 bytes of the per-argument limit (131071 bytes + NUL), mixed} (total input capped at ~12 MB) x environment size {minimal, 1/4, 3/4 of the kernel budget, spread over few large or many small variables} x RLIMIT_STACK {256 KiB, 1 MiB, 8 MiB, 64 MiB, unlimited} (kernel budget 128 KiB .. 6 MiB; set with setrlimit in the child before exec) x length of the path the command is named by {short, 900, 2300, 3900 bytes; in a third of those cases the command is a '#!' script in that directory, found through PATH} x fixed arguments after the command {none, 3000, 9000, 20000, 60000 bytes: part of every command line} x options {none, -n N, -s S (also S above the system limit), -L N}; NUL-separated input. A third sub-run runs xargs -I{} with templates holding 1-8 occurrences of {} per argument on lines sized so that the SUBSTITUTED arguments approach or exceed the per-argument limit or the whole budget. A second sub-run places one argument of 131072..400000 bytes (over the per-argument limit) at a random position. Oracle: the kernel itself - the built xargs binary runs the rec recorder; violation iff xargs exits 126 / reports 'Argument list too long' / any other status than 0, or the concatenation of the recorded arguments differs from the input (nothing lost, duplicated or reordered); for an oversized argument: exit status 1, a diagnostic, and no recorded invocation contains it or anything after it. Non-trivial = total argv bytes + 8 bytes of pointer per argument exceed the kernel budget of the chosen stack limit (>= 2 invocations are required), or an argument within 2 bytes of the per-argument limit is present. Distinct = distinct case JSON.",
     assumptions: &[
         "Linux: per-argument limit MAX_ARG_STRLEN = 131072 bytes including the terminator; total budget max(min(RLIMIT_STACK/4, 6 MiB), 128 KiB) for strings plus one pointer per argument and environment entry",
         "the running kernel of this sandbox is the oracle for 'accepted by exec'",
@@ -49,6 +49,10 @@ pub struct Case {
     /// length of the (relative) path the command is named by; 0 = the recorder's own short path
     #[serde(default)]
     pub cmd_path: u16,
+    /// with a long command path: the command is a '#!' script there (the kernel then copies its path
+    /// a second time, plus the interpreter) and is found through PATH (the command word stays short)
+    #[serde(default)]
+    pub script_via_path: bool,
 }
 
 fn fill(len: usize, i: usize, content: u8) -> Vec<u8> {
@@ -70,7 +74,7 @@ fn fill(len: usize, i: usize, content: u8) -> Vec<u8> {
 
 /// what an implementation may set aside for the name of the executed file (the kernel copies it into
 /// the same space): arguments this close to the budget may be refused rather than passed
-const PATH_MAX_ROOM: usize = 4096;
+const PATH_MAX_ROOM: usize = 2 * 4096 + 256;
 
 fn stack_bytes(s: u8) -> u64 {
     match s {
@@ -162,7 +166,13 @@ pub fn gen_case(g: &mut Gen) -> Case {
         let e = g.below(10_000) as f64 / 10_000.0 * max_exp;
         (2f64.powf(e) as usize).clamp(1, 400_000)
     };
-    Case { count, profile, len_seed: g.u64_any(), env: (g.weighted(&[3, 2, 2]) as u8) | if g.bool() { 16 } else { 0 }, stack, opt: g.weighted(&[5, 2, 3, 1]) as u8, opt_value: 0, oversize: None, content: g.weighted(&[3, 2, 1]) as u8, fixed: g.pick(&[0u32, 0, 0, 0, 3000, 9000, 20000, 60000]), cmd_path: g.pick(&[0u16, 0, 0, 0, 0, 900, 2300, 3900]) }
+    let mut c = Case { count, profile, len_seed: g.u64_any(), env: (g.weighted(&[3, 2, 2]) as u8) | if g.bool() { 16 } else { 0 }, stack, opt: g.weighted(&[5, 2, 3, 1]) as u8, opt_value: 0, oversize: None, content: g.weighted(&[3, 2, 1]) as u8, fixed: g.pick(&[0u32, 0, 0, 0, 3000, 9000, 20000, 60000]), cmd_path: g.pick(&[0u16, 0, 0, 0, 0, 900, 2300, 3900]), script_via_path: g.chance(1, 3) };
+    if c.script_via_path && c.cmd_path > 0 {
+        // the script's interpreter (dash) takes seconds to import tens of thousands of environment
+        // entries, once per invocation: keep the environment in few large entries there
+        c.env &= 15;
+    }
+    c
 }
 
 fn finish_opts(g: &mut Gen, mut c: Case) -> Case {
@@ -276,7 +286,38 @@ pub fn check(ctx: &mut Ctx, c: &Case) -> Outcome {
         }
         _ => {}
     }
-    let env = build_env(c);
+    // the command named by a long relative path (a chain of directories holding a link to the
+    // recorder): the kernel charges the executed file's name besides argv[0]
+    let mut script_dir: Option<std::path::PathBuf> = None;
+    let cmd0: OsString = if c.cmd_path > 0 {
+        let mut p = String::from("L");
+        while p.len() + 252 < c.cmd_path as usize {
+            p.push('/');
+            p.push_str(&"d".repeat(250));
+        }
+        let rest = (c.cmd_path as usize).saturating_sub(p.len() + 3).clamp(1, 250);
+        p.push('/');
+        p.push_str(&"e".repeat(rest));
+        let _ = std::fs::create_dir_all(ctx.root.join(&p));
+        let link = format!("{p}/r");
+        let _ = std::fs::remove_file(ctx.root.join(&link));
+        if c.script_via_path {
+            use std::os::unix::fs::PermissionsExt;
+            std::fs::write(ctx.root.join(&link), format!("#!/bin/sh\nexec {} \"$@\"\n", rec_path().to_string_lossy())).unwrap();
+            std::fs::set_permissions(ctx.root.join(&link), std::fs::Permissions::from_mode(0o755)).unwrap();
+            script_dir = Some(ctx.root.join(&p));
+            "r".into()
+        } else {
+            std::os::unix::fs::symlink(rec_path(), ctx.root.join(&link)).unwrap();
+            link.into()
+        }
+    } else {
+        rec_path()
+    };
+    let mut env = build_env(c);
+    if let Some(d) = &script_dir {
+        env.push(("PATH".into(), format!("{}:{}", d.display(), crate::engine::proc::safe_path_dir().display()).into()));
+    }
     let env_bytes: usize = env.iter().map(|(k, v)| k.len() + v.len() + 2).sum();
     // fixed arguments: only where they leave room for the longest argument
     let longest_arg = args.iter().map(|a| a.len()).max().unwrap_or(0);
@@ -298,25 +339,6 @@ pub fn check(ctx: &mut Ctx, c: &Case) -> Outcome {
         let n = opts.len();
         opts[n - 1] = (c.opt_value + fixed_total + c.cmd_path as usize + 16).to_string().into();
     }
-    // the command named by a long relative path (a chain of directories holding a link to the
-    // recorder): the kernel charges the executed file's name besides argv[0]
-    let cmd0: OsString = if c.cmd_path > 0 {
-        let mut p = String::from("L");
-        while p.len() + 252 < c.cmd_path as usize {
-            p.push('/');
-            p.push_str(&"d".repeat(250));
-        }
-        let rest = (c.cmd_path as usize).saturating_sub(p.len() + 3).clamp(1, 250);
-        p.push('/');
-        p.push_str(&"e".repeat(rest));
-        let _ = std::fs::create_dir_all(ctx.root.join(&p));
-        let link = format!("{p}/r");
-        let _ = std::fs::remove_file(ctx.root.join(&link));
-        std::os::unix::fs::symlink(rec_path(), ctx.root.join(&link)).unwrap();
-        link.into()
-    } else {
-        rec_path()
-    };
     let mut cmd: Vec<OsString> = vec![cmd0.clone()];
     cmd.extend(fixed_args.iter().cloned());
     let bo = BinOpts { clear_env: true, env: env.clone(), stack_limit: Some(stack_bytes(c.stack)), timeout_s: 300, ..Default::default() };
@@ -359,12 +381,12 @@ pub fn check(ctx: &mut Ctx, c: &Case) -> Outcome {
     // An argument within the per-argument limit may still be too large for the whole budget
     // (base command, environment, pointers, headroom): nobody can pass it, and the statement only
     // requires that no rejected command line is built.  `tight(a)`: not certain to fit.
-    let base_cost = 2 * cmd0.len() + 2 + 8 + 16 + 2048 + 4096 + PATH_MAX_ROOM + env_bytes + env.len() * 8 + fixed_total + fixed_args.len() * 8;
+    let base_cost = 2 * cmd0.len() + 2 + 8 + 16 + 2048 + 4096 + PATH_MAX_ROOM + if script_dir.is_some() { 2 * (c.cmd_path as usize + 300) } else { 0 } + env_bytes + env.len() * 8 + fixed_total + fixed_args.len() * 8;
     let tight = |a: &Vec<u8>| a.len() + 1 + 8 + base_cost > b;
     match c.oversize {
         None => {
             if e2big || run.out.code == Some(126) {
-                let why = if c.cmd_path as usize > 2048 { "command-path-longer-than-the-headroom" } else if near_limit { "per-argument-limit" } else if c.env & 15 != 0 { "with-large-environment" } else { "pointer-overhead" };
+                let why = if script_dir.is_some() { "script-found-through-a-long-PATH-directory" } else if c.cmd_path as usize > 2048 { "command-path-longer-than-the-headroom" } else if near_limit { "per-argument-limit" } else if c.env & 15 != 0 { "with-large-environment" } else { "pointer-overhead" };
                 return fail(format!("C06:exec-rejected-command-line:{prof}:{why}"), desc());
             }
             if run.out.code == Some(1) && args.iter().any(tight) {
@@ -413,6 +435,7 @@ pub fn check(ctx: &mut Ctx, c: &Case) -> Outcome {
         .class_if(c.content == 2, "non-utf8-bytes")
         .class_if(fixed_total > 0, "fixed-arguments")
         .class_if(c.cmd_path as usize > 2048, "command-path-longer-than-the-headroom")
+        .class_if(script_dir.is_some(), "script-found-through-PATH")
         .class_if(fixed_total > 2048 && total_with_ptrs > b, "fixed-arguments-larger-than-the-headroom-and-several-invocations")
         .class(match c.stack {
             0 => "stack-256KiB",
